@@ -4,12 +4,12 @@ CONSTANTS
   MaxOps = 4
   GoneTail = 1
   SymBreak = TRUE
-  SeekOnGet = FALSE
-  ReadThenUnlink = FALSE
+  SeekOnGet = TRUE
+  ReadThenUnlink = TRUE
   UnlinkOnDrop = TRUE
   CreateErrIsExist = TRUE
   DirtyAfterWrite = TRUE
   MaxFail = 1
-INVARIANTS TypeOK Refines DirIsMap NothingLeftBehind OccupiedIffInserted ReadsReturnStored GoneIsError
+INVARIANTS TypeOK Refines DirIsMap NothingLeftBehind OccupiedIffInserted ReadsReturnStored GoneIsError Emit
 
 CHECK_DEADLOCK FALSE
